@@ -53,7 +53,11 @@ func (e *StreamEncoder) WriteMessage(mesg *proto.Message) error {
 
 // SequenceCompleted finalises the FIT File by updating its FileHeader's DataSize & CRC, as well as the File's CRC.
 // This will also reset variables so that the StreamEncoder can be used for the next sequence of FIT file.
+// It returns an error when no message has been written since the stream encoder was created, reset or last completed.
 func (e *StreamEncoder) SequenceCompleted() error {
+	if !e.fileHeaderWritten { // no message has been written: there is no sequence to complete.
+		return errEmptyMessages
+	}
 	if err := e.enc.encodeCRC(); err != nil {
 		return fmt.Errorf("encode crc: %w", err)
 	}
